@@ -36,6 +36,7 @@ fn generators(cfg: &Cfg) -> Vec<Generator> {
         Generator { name: "programs", total: cfg.tier.pick(1_200, 60_000), run: run_program, case_cpu_limit_s: 120 },
         Generator { name: "fixtures", total: fixtures().len() as u64, run: run_fixture, case_cpu_limit_s: 300 },
         Generator { name: "shapes", total: shapes().len() as u64, run: run_shape, case_cpu_limit_s: 120 },
+        Generator { name: "fixture-mutants", total: cfg.tier.pick(900, 24_000), run: run_fixture_mutant, case_cpu_limit_s: 300 },
     ]
 }
 
@@ -679,5 +680,187 @@ fn run_shape(_cfg: &Cfg, index: u64, stats: &mut Stats) {
     };
     if monitor(stats, "shapes", index, &sources, exe, vec![class.to_string(), name.to_string()]) {
         stats.nontrivial(name.as_bytes());
+    }
+}
+
+/* ------------------------------------------------------------------------------------------------------------
+ * Mutations of the repository's compile fixtures that `check` still accepts (the second half of the property's
+ * quantifier). A mutant is the fixture's text with one or two token-level changes, installed as an overlay at the
+ * fixture's own path so that its relative imports keep working: arms of a match / comatch swapped or duplicated,
+ * the last arm's pattern replaced by a catch-all, a literal or an identifier replaced by another one of the file, a
+ * use wrapped into a value-level `let`. What is accepted as an executable goes through the same monitors.
+ * ------------------------------------------------------------------------------------------------------------ */
+
+fn mutant_fixtures() -> Vec<std::path::PathBuf> {
+    let mut v = Vec::new();
+    for dir in ["compile", "compile-more", "exec"] {
+        if let Ok(entries) = std::fs::read_dir(std::path::Path::new("/repo/lib/tests").join(dir)) {
+            for e in entries.flatten() {
+                let p = e.path();
+                if matches!(p.extension().and_then(|e| e.to_str()), Some("zy" | "zydeco")) {
+                    v.push(p);
+                }
+            }
+        }
+    }
+    v.sort();
+    v
+}
+
+/// Token ranges of the arms of the match / comatch that opens at token `open`: (first token, one past the last).
+fn arms_of(src: &str, tokens: &[crate::e2::scan::Token], open: usize) -> Option<(Vec<(usize, usize)>, usize)> {
+    use crate::e2::scan::Kind;
+    let text = |i: usize| &src[tokens[i].start..tokens[i].end];
+    let mut depth = 0i32; // nested `end`-closed constructs
+    let mut paren = 0i32;
+    let mut starts: Vec<usize> = Vec::new();
+    let mut i = open + 1;
+    while i < tokens.len() {
+        let t = text(i);
+        match tokens[i].kind {
+            | Kind::Keyword if matches!(t, "match" | "comatch" | "data" | "codata" | "begin") => depth += 1,
+            | Kind::Keyword if t == "end" => {
+                if depth == 0 {
+                    if starts.is_empty() {
+                        return None;
+                    }
+                    let mut arms = Vec::new();
+                    for (k, st) in starts.iter().enumerate() {
+                        let en = if k + 1 < starts.len() { starts[k + 1] } else { i };
+                        arms.push((*st, en));
+                    }
+                    return Some((arms, i));
+                }
+                depth -= 1;
+            }
+            | Kind::Punct if matches!(t, "(" | "{" | "[") => paren += 1,
+            | Kind::Punct if matches!(t, ")" | "}" | "]") => paren -= 1,
+            | Kind::Punct if t == "|" && depth == 0 && paren == 0 => starts.push(i),
+            | _ => {}
+        }
+        i += 1;
+    }
+    None
+}
+
+fn run_fixture_mutant(cfg: &Cfg, index: u64, stats: &mut Stats) {
+    use crate::e2::scan::{self, Kind};
+    let fixtures = mutant_fixtures();
+    if fixtures.is_empty() {
+        stats.harness_error("no compile fixtures found under /repo/lib/tests".into());
+        return;
+    }
+    let mut rng = Rng::for_case(cfg.seed, "C18/fixture-mutants", index);
+    let path = fixtures[(index as usize) % fixtures.len()].clone();
+    let Ok(src) = std::fs::read_to_string(&path) else { return };
+    let tokens: Vec<scan::Token> = scan::scan(&src).into_iter().filter(|t| t.is_code()).collect();
+    if tokens.len() < 8 {
+        return;
+    }
+    let text = |i: usize| &src[tokens[i].start..tokens[i].end];
+    let span = |a: usize, b: usize| &src[tokens[a].start..tokens[b - 1].end];
+    let mut out = src.clone();
+    let mut tags: Vec<String> = vec!["fixture-mutant".into()];
+    let opens: Vec<usize> = (0..tokens.len()).filter(|i| tokens[*i].kind == Kind::Keyword && matches!(text(*i), "match" | "comatch")).collect();
+    let op = rng.below(8);
+    let mut operator = "none";
+    match op {
+        | 0 | 1 | 2 | 3 if !opens.is_empty() => {
+            let open = *rng.pick(&opens);
+            let is_match = text(open) == "match";
+            if let Some((arms, end)) = arms_of(&src, &tokens, open) {
+                let a = rng.below(arms.len());
+                match op {
+                    | 0 if arms.len() >= 2 => {
+                        // swap two arms
+                        let mut b = rng.below(arms.len());
+                        if a == b {
+                            b = (a + 1) % arms.len();
+                        }
+                        let (x, y) = if a < b { (arms[a], arms[b]) } else { (arms[b], arms[a]) };
+                        out = format!("{}{}{}{}{}", &src[..tokens[x.0].start], span(y.0, y.1), &src[tokens[x.1 - 1].end..tokens[y.0].start], span(x.0, x.1), &src[tokens[y.1 - 1].end..]);
+                        operator = "swap-arms";
+                    }
+                    | 1 => {
+                        // the arm once more, at the end: it can never be taken
+                        out = format!("{} {} {}", &src[..tokens[end].start], span(arms[a].0, arms[a].1), &src[tokens[end].start..]);
+                        operator = "duplicate-arm";
+                        tags.push(if is_match { "match-arms-not-one-per-constructor" } else { "comatch-arm-duplicated" }.into());
+                    }
+                    | 2 if is_match => {
+                        // the last arm's pattern becomes a catch-all
+                        let last = arms[arms.len() - 1];
+                        if let Some(arrow) = (last.0..last.1).find(|i| text(*i) == "=>") {
+                            out = format!("{}| _ {}", &src[..tokens[last.0].start], &src[tokens[arrow].start..]);
+                            operator = "last-arm-catch-all";
+                            tags.push("match-arms-not-one-per-constructor".into());
+                        }
+                    }
+                    | _ if is_match => {
+                        // a catch-all arm after all others
+                        if let Some(arrow) = (arms[a].0..arms[a].1).find(|i| text(*i) == "=>") {
+                            out = format!("{} | _ {} {}", &src[..tokens[end].start], span(arrow, arms[a].1), &src[tokens[end].start..]);
+                            operator = "extra-catch-all-arm";
+                            tags.push("match-arms-not-one-per-constructor".into());
+                        }
+                    }
+                    | _ => {}
+                }
+            }
+        }
+        | 4 => {
+            // an integer literal becomes another small one
+            let ints: Vec<usize> = (0..tokens.len()).filter(|i| tokens[*i].kind == Kind::Int).collect();
+            if !ints.is_empty() {
+                let i = *rng.pick(&ints);
+                out = format!("{}{}{}", &src[..tokens[i].start], rng.below(200), &src[tokens[i].end..]);
+                operator = "literal";
+            }
+        }
+        | 5 | 6 => {
+            // a lower-case identifier becomes another one of the file
+            let ids: Vec<usize> = (0..tokens.len()).filter(|i| tokens[*i].kind == Kind::Lower).collect();
+            if ids.len() >= 2 {
+                let i = *rng.pick(&ids);
+                let j = *rng.pick(&ids);
+                if text(i) != text(j) {
+                    out = format!("{}{}{}", &src[..tokens[i].start], text(j), &src[tokens[i].end..]);
+                    operator = "identifier";
+                }
+            }
+        }
+        | _ => {
+            // a use wrapped into a value-level let: `x` becomes `(let q_ = x in q_)`
+            let ids: Vec<usize> = (1..tokens.len() - 1).filter(|i| tokens[*i].kind == Kind::Lower && !matches!(text(*i + 1), "=" | ":" | "<-" | "::") && !matches!(text(*i - 1), "/" | "." | "let" | "def" | "fn" | "fix" | "|" | "do")).collect();
+            if !ids.is_empty() {
+                let i = *rng.pick(&ids);
+                out = format!("{}(let q_ = {} in q_){}", &src[..tokens[i].start], text(i), &src[tokens[i].end..]);
+                operator = "value-level-let";
+                tags.push("scrutinee-or-argument-not-a-plain-value".into());
+            }
+        }
+    }
+    if operator == "none" || out == src {
+        return;
+    }
+    stats.evaluations += 1;
+    stats.count("fixture_mutants_made");
+    let mut session = zydeco_session::CompilerSession::default();
+    let _ = session.set_overlay(&path, out.clone());
+    let analyzed = pipeline::analyze_in(session, path.clone());
+    if !analyzed.verdict.is_accept() {
+        stats.count("fixture_mutants_rejected");
+        return;
+    }
+    let Ok(exe) = analyzed.executable() else {
+        stats.count("fixture_mutants_not_executable");
+        return;
+    };
+    stats.count("fixture_mutants_accepted");
+    stats.cover("fixture_mutant_operators_accepted", operator);
+    tags.push(operator.to_string());
+    let sources = Sources { files: vec![(path.display().to_string(), out.clone())] };
+    if monitor(stats, "fixture-mutants", index, &sources, exe, tags) {
+        stats.nontrivial(out.as_bytes());
     }
 }
